@@ -13,7 +13,7 @@ namespace etl {
 /// number representation and converts them to an integer value.
 [[nodiscard]] constexpr auto atoll(char const* str) noexcept -> long long
 {
-    auto const result = strings::to_integer<long long>(str);
+    auto const result = strings::to_integer<long long, strings::c_library_to_integer_options>(str);
     return result.value;
 }
 
